@@ -477,6 +477,13 @@ pub fn space(thorough: bool) -> Vec<Prog> {
             }
         }
     }
+    // wide: 70 variables in one group (shuffled binding order) and 70 groups of one variable
+    {
+        let order: Vec<(u32, u32)> = (0..70u32).map(|i| (0, (i * 37) % 70)).collect();
+        out.push(build(&order, 1, "wide|one-group|70".to_string()));
+        let groups: Vec<(u32, u32)> = (0..70u32).rev().map(|g| (g, g % 3)).collect();
+        out.push(build(&groups, 2, "wide|70-groups".to_string()));
+    }
     // rarely used resource types next to ordinary ones: in the middle of a group, alone in the last group, alone in a
     // middle group
     for rare in [Kind::AtomicArray, Kind::AtomicTop] {
@@ -516,7 +523,23 @@ pub fn space(thorough: bool) -> Vec<Prog> {
 pub fn run(tier: &str) -> i32 {
     let mut rep = Report::new("C04", tier);
     let thorough = rep.thorough();
-    let progs = space(thorough);
+    let mut progs = space(thorough);
+    // resource variable types written through `alias` declarations (every 3rd program)
+    {
+        let n0 = progs.len();
+        for i in 0..n0 {
+            if thorough || i % 3 == 1 {
+                if let Some(src) = alias_types(&progs[i].src) {
+                    if naga_check(&src).is_ok() {
+                        let mut q = progs[i].clone();
+                        q.key = format!("{}|aliased-types", q.key);
+                        q.src = src;
+                        progs.push(q);
+                    }
+                }
+            }
+        }
+    }
     let cfg = Config::default();
     // omodel over the whole space
     let texts: Vec<Option<String>> = par_map(&progs, |p| generate(&p.src, &cfg).ok().map(|s| s.to_string()));
